@@ -10,8 +10,9 @@ count of UTF-8 bytes then the bytes, sequence/set/mapping = uint64 element
 count then the elements, tuple = the fields, variant = uint64 index then the
 alternative.  `decode` mirrors the Python decoders (python/gtirb/
 serialization.py): a set de-duplicates, a mapping keeps the last value for a
-repeated key, bool is `byte != 0`, and the unknown-codec error is raised only
-when decoding *reaches* the unknown head. Reads are strict (a short read is an
+repeated key, bool is `byte != 0`, and the unknown-codec error and the
+wrong-arity error of a known head are raised only when decoding *reaches* the
+head. Reads are strict (a short read is an
 error of the model; the Python code returns short values, which no property
 speaks about). -/
 namespace Gtirb.Codec
@@ -29,6 +30,10 @@ inductive Ty where
   | tuple (ts : List Ty)
   | variant (ts : List Ty)
   | unknown (name : String) (args : List Ty)
+  /-- a KNOWN head used with an arity its codec rejects (`sequence<a,b>`,
+  `string<int8_t>`, ...): the Python codecs test the arity first thing in
+  `decode` / `encode`, i.e. only when coding *reaches* the head -/
+  | badArity (name : String) (args : List Ty)
   deriving Repr, Inhabited
 
 /-- Values. `uuid` is a plain UUID (16 bytes), `node` a Node object of the IR
@@ -201,7 +206,7 @@ def encode (nodeUuid : Nat → Bytes) : Ty → Val → Option Bytes
     match encodeNth nodeUuid ts i v with
     | some bs => if i < 2 ^ 64 then some (u64 i ++ bs) else none
     | none => none
-  | _, _ => none
+  | _, _ => none      -- in particular under `.unknown` and `.badArity` (EncodeError when reached)
 def encodeTuple (nodeUuid : Nat → Bytes) : List Ty → List Val → Option Bytes
   | [], [] => some []
   | t :: ts, x :: xs =>
@@ -223,6 +228,7 @@ inductive Res (α : Type) where
   | badUtf8
   | badIndex
   | unknownCodec (name : String)
+  | badArity        -- a known head with a rejected arity was reached (DecodeError)
   deriving Repr
 
 def decodeElem (lookup : Bytes → Option Nat) (bs : Bytes) : Res (Val × Bytes) :=
@@ -268,6 +274,7 @@ def decodeLeaf (lookup : Bytes → Option Nat) (l : Leaf) (bs : Bytes) : Res (Va
     | .badUtf8 => .badUtf8
     | .badIndex => .badIndex
     | .unknownCodec n => .unknownCodec n
+    | .badArity => .badArity
   | l =>
     match splitAt? l.width bs with
     | none => .short
@@ -285,10 +292,12 @@ def decodeMany (f : Bytes → Res (Val × Bytes)) : Nat → Bytes → Res (List 
       | .badUtf8 => .badUtf8
       | .badIndex => .badIndex
       | .unknownCodec nm => .unknownCodec nm
+      | .badArity => .badArity
     | .short => .short
     | .badUtf8 => .badUtf8
     | .badIndex => .badIndex
     | .unknownCodec nm => .unknownCodec nm
+    | .badArity => .badArity
 
 def decodeManyPairs (f g : Bytes → Res (Val × Bytes)) :
     Nat → Bytes → Res (List Val × List Val × Bytes)
@@ -304,14 +313,17 @@ def decodeManyPairs (f g : Bytes → Res (Val × Bytes)) :
         | .badUtf8 => .badUtf8
         | .badIndex => .badIndex
         | .unknownCodec nm => .unknownCodec nm
+        | .badArity => .badArity
       | .short => .short
       | .badUtf8 => .badUtf8
       | .badIndex => .badIndex
       | .unknownCodec nm => .unknownCodec nm
+      | .badArity => .badArity
     | .short => .short
     | .badUtf8 => .badUtf8
     | .badIndex => .badIndex
     | .unknownCodec nm => .unknownCodec nm
+    | .badArity => .badArity
 
 def dedup (xs : List Val) : List Val := xs.foldl setInsert []
 
@@ -331,6 +343,7 @@ def decode (lookup : Bytes → Option Nat) : Ty → Bytes → Res (Val × Bytes)
       | .badUtf8 => .badUtf8
       | .badIndex => .badIndex
       | .unknownCodec nm => .unknownCodec nm
+      | .badArity => .badArity
   | .set t, bs =>
     match splitAt? 8 bs with
     | none => .short
@@ -341,6 +354,7 @@ def decode (lookup : Bytes → Option Nat) : Ty → Bytes → Res (Val × Bytes)
       | .badUtf8 => .badUtf8
       | .badIndex => .badIndex
       | .unknownCodec nm => .unknownCodec nm
+      | .badArity => .badArity
   | .map kt vt, bs =>
     match splitAt? 8 bs with
     | none => .short
@@ -351,6 +365,7 @@ def decode (lookup : Bytes → Option Nat) : Ty → Bytes → Res (Val × Bytes)
       | .badUtf8 => .badUtf8
       | .badIndex => .badIndex
       | .unknownCodec nm => .unknownCodec nm
+      | .badArity => .badArity
   | .tuple ts, bs =>
     match decodeTuple lookup ts bs with
     | .ok (vs, rest) => .ok (.tuple vs, rest)
@@ -358,6 +373,7 @@ def decode (lookup : Bytes → Option Nat) : Ty → Bytes → Res (Val × Bytes)
     | .badUtf8 => .badUtf8
     | .badIndex => .badIndex
     | .unknownCodec nm => .unknownCodec nm
+    | .badArity => .badArity
   | .variant ts, bs =>
     match splitAt? 8 bs with
     | none => .short
@@ -368,7 +384,9 @@ def decode (lookup : Bytes → Option Nat) : Ty → Bytes → Res (Val × Bytes)
       | .badUtf8 => .badUtf8
       | .badIndex => .badIndex
       | .unknownCodec nm => .unknownCodec nm
+      | .badArity => .badArity
   | .unknown name _, _ => .unknownCodec name
+  | .badArity _ _, _ => .badArity
 def decodeTuple (lookup : Bytes → Option Nat) : List Ty → Bytes → Res (List Val × Bytes)
   | [], bs => .ok ([], bs)
   | t :: ts, bs =>
@@ -380,10 +398,12 @@ def decodeTuple (lookup : Bytes → Option Nat) : List Ty → Bytes → Res (Lis
       | .badUtf8 => .badUtf8
       | .badIndex => .badIndex
       | .unknownCodec nm => .unknownCodec nm
+      | .badArity => .badArity
     | .short => .short
     | .badUtf8 => .badUtf8
     | .badIndex => .badIndex
     | .unknownCodec nm => .unknownCodec nm
+    | .badArity => .badArity
 def decodeNth (lookup : Bytes → Option Nat) : List Ty → Nat → Bytes → Res (Val × Bytes)
   | [], _, _ => .badIndex
   | t :: _, 0, bs => decode lookup t bs
@@ -405,8 +425,10 @@ def isContainerName (s : String) : Bool :=
   s == "sequence" || s == "set" || s == "mapping" || s == "tuple" || s == "variant"
 
 mutual
-/-- `none` = a known head used with an arity the codec rejects (outside the
-supported grammar; the Python codecs raise DecodeError/EncodeError there). -/
+/-- Never `none` (`tyOfTree_isSome`; the `Option` is kept for its users): a
+known head used with an arity its codec rejects becomes a `badArity` node,
+which fails when coding reaches it (the Python codecs raise DecodeError /
+EncodeError there, and only there). -/
 def tyOfTree : TypeName.Tree → Option Ty
   | .node n ks =>
     let name := String.ofList n
@@ -414,14 +436,14 @@ def tyOfTree : TypeName.Tree → Option Ty
     | none => none
     | some args =>
       match leafOfName name with
-      | some l => if args.isEmpty then some (.leaf l) else none
+      | some l => if args.isEmpty then some (.leaf l) else some (.badArity name args)
       | none =>
         if name == "sequence" then
-          match args with | [t] => some (.seq t) | _ => none
+          match args with | [t] => some (.seq t) | _ => some (.badArity name args)
         else if name == "set" then
-          match args with | [t] => some (.set t) | _ => none
+          match args with | [t] => some (.set t) | _ => some (.badArity name args)
         else if name == "mapping" then
-          match args with | [k, v] => some (.map k v) | _ => none
+          match args with | [k, v] => some (.map k v) | _ => some (.badArity name args)
         else if name == "tuple" then some (.tuple args)
         else if name == "variant" then some (.variant args)
         else some (.unknown name args)
@@ -431,6 +453,23 @@ def tysOfTrees : List TypeName.Tree → Option (List Ty)
     match tyOfTree t, tysOfTrees ts with
     | some a, some b => some (a :: b)
     | _, _ => none
+end
+
+mutual
+/-- no known head with a rejected arity anywhere (what `tyOfTree` used to
+demand of the whole name before the arity test was made lazy) -/
+def arityOk : Ty → Bool
+  | .leaf _ => true
+  | .seq t => arityOk t
+  | .set t => arityOk t
+  | .map k v => arityOk k && arityOk v
+  | .tuple ts => arityOkList ts
+  | .variant ts => arityOkList ts
+  | .unknown _ args => arityOkList args
+  | .badArity _ _ => false
+def arityOkList : List Ty → Bool
+  | [] => true
+  | t :: ts => arityOk t && arityOkList ts
 end
 
 def tyOfName (s : String) : Option Ty :=
